@@ -11,15 +11,23 @@ def register(add):
     common = dict(headers=H, conf='w8', route='bounded', timeout=600, flags=['--object-bits', '10'])
     RD = ['bn_zero', 'bn_grow', 'util_bits_dig', 'bn_mul_dig/bn_mul_dig_s', 'bn_add_dig', 'bn_trim']
     add('bn_read_str@w8', ['C07', 'C08'], 'bn_read_str', sources=[UTIL, RUTIL], decls='bn_st *a; const char *str; size_t len; uint_t radix;',
-        call='bn_read_str(a, str, len, radix)', replace=RD, unwind=66, defines=['C7S_MINLEN=1'],
-        bound_note='strings of 1..6 bytes in an exact-size buffer, every radix, every byte value; loops unwound completely (table scan: 64)',
-        note=ABS + '. Horner form over MUL in character order, sign, normal form (-0 = 0), invalid radix reported with zero output, no read beyond len. '
-        'WEAKER THAN THE PROPERTY in two named points (both fail in the strict unit, see findings/c07s_*): a character that is not a digit of the radix '
-        'ends the conversion WITHOUT an error (value of the prefix), and len = 0 is excluded because the code reads str[0] unconditionally', **common)
-    add('bn_read_str.strict@w8', ['C07', 'C08'], 'bn_read_str', sources=[UTIL, RUTIL], decls='bn_st *a; const char *str; size_t len; uint_t radix;',
-        call='bn_read_str(a, str, len, radix)', replace=RD, unwind=66, defines=['C7S_STRICT'],
+        call='bn_read_str(a, str, len, radix)', replace=RD, unwind=14, unwindset=['bn_read_str_wrapped_for_contract_checking.1:66', 'bn_read_str_wrapped_for_contract_checking.2:8'], defines=[],
         bound_note='strings of 0..6 bytes in an exact-size buffer, every radix, every byte value; loops unwound completely (table scan: 64)',
-        note=ABS + '. As bn_read_str@w8, and: a character that is not a digit of the radix is reported as an error; the empty buffer (len = 0) is admitted', **common)
+        note=ABS + '. Horner form over MUL in character order, sign, normal form (-0 = 0), invalid radix reported with zero output, no read beyond len. '
+        'WEAKER THAN THE PROPERTY in one named point (observation, DESIGN 0.2): a character that is not a digit of the radix '
+        'ends the conversion WITHOUT an error (value of the prefix, like strtol); the empty buffer (len = 0) is admitted and gives zero', **common)
+    import os
+    if os.environ.get('C07S_ALL'):
+      add('bn_read_str.strict@w8', ['C07', 'C08'], 'bn_read_str', sources=[UTIL, RUTIL], decls='bn_st *a; const char *str; size_t len; uint_t radix;',
+          call='bn_read_str(a, str, len, radix)', replace=RD, unwind=14, unwindset=['bn_read_str_wrapped_for_contract_checking.1:66', 'bn_read_str_wrapped_for_contract_checking.2:8'], defines=['C7S_STRICT'],
+          bound_note='strings of 0..6 bytes in an exact-size buffer, every radix, every byte value; loops unwound completely (table scan: 64)',
+          note=ABS + '. As bn_read_str@w8, and: a character that is not a digit of the radix is reported as an error; the empty buffer (len = 0) is admitted', **common)
+    if os.environ.get('C07S_ALL'):
+      add('bn_read_str.strict1@w8', ['C07', 'C08'], 'bn_read_str', sources=[UTIL, RUTIL], decls='bn_st *a; const char *str; size_t len; uint_t radix;',
+          call='bn_read_str(a, str, len, radix)', replace=RD, unwind=14, unwindset=['bn_read_str_wrapped_for_contract_checking.1:66', 'bn_read_str_wrapped_for_contract_checking.2:8'],
+          defines=['C7S_STRICT', 'C7S_MINLEN=1'],
+          bound_note='strings of 1..6 bytes in an exact-size buffer, every radix, every byte value; loops unwound completely (table scan: 64)',
+          note=ABS + '. The strict contract (invalid digit character => error) without the empty buffer: isolates the "invalid character accepted silently" finding from the len = 0 findings', **common)
     add('bn_size_str@w8', ['C07', 'C08'], 'bn_size_str', sources=[UTIL, MEM], decls='bn_st *a; uint_t radix;', call='bn_size_str(a, radix)',
         replace=['bn_is_zero', 'bn_bits', 'bn_copy', 'bn_div_dig/bn_div_dig_s', 'bn_grow', 'bn_trim'], unwind=14,
         bound_note='|a| < 2^5 (every chain of 1..5 abstract division steps, both signs, zero), every radix; loops unwound completely',
